@@ -18,7 +18,7 @@
    Strict = TRUE these are not excepted and TLC must report them).                       *)
 EXTENDS Cdef, SequencesExt
 
-CONSTANT Variants     \* subset of {"faithful", "strict", "susort", "nolen", "dollar", "negmask", "filetwice"}
+CONSTANT Variants     \* subset of {"faithful", "strict", "susort", "nolen", "dollar", "negmask", "filetwice", "signedlowbyte"}
 VARIABLE variant      \* chosen at Init, never changes.  "faithful": the transcription; "strict": the
                       \* transcription, but no documented divergence class is excepted (TLC must
                       \* report them); the others are deliberately broken transcriptions (non-vacuity)
@@ -36,7 +36,13 @@ PrimName(i) == CHOOSE p \in DOMAIN PrimIndex : PrimIndex[p] = i
 
 (* format_four_bytes / cdl_4bytes: a word w = (arg << 8) | op, -2^31 <= w < 2^31 *)
 Enc4(w) == << (w \div 16777216) % 256, (w \div 65536) % 256, (w \div 256) % 256, w % 256 >>
-Dec4(b) == (IF b[1] >= 128 THEN b[1] - 256 ELSE b[1]) * 16777216 + b[2] * 65536 + b[3] * 256 + b[4]
+\* cdl_4bytes: (ssrc[0] << 24) | (usrc[1] << 16) | (usrc[2] << 8) | usrc[3].  Variant "signedlowbyte"
+\* reads the last byte through the signed char pointer: a low byte >= 0x80 sign-extends and the
+\* bitwise or wipes out the three upper bytes.
+Dec4(b) == IF variant = "signedlowbyte" /\ b[4] >= 128 THEN b[4] - 256
+           ELSE (IF b[1] >= 128 THEN b[1] - 256 ELSE b[1]) * 16777216 + b[2] * 65536 + b[3] * 256 + b[4]
+\* a number that travels as 4 bytes in one of the tuples (type_index, flags, type_prim, bit size)
+D4(x) == Dec4(Enc4(x))
 Word(op, arg) == arg * 256 + op
 GetOp(w)  == w % 256             \* _CFFI_GETOP: (unsigned char)
 GetArg(w) == w \div 256          \* _CFFI_GETARG: arithmetic shift right by 8
@@ -63,7 +69,7 @@ Marked(ev, t) ==
                        IN <<m[1], "[" \o (IF t[3] = Open THEN "" ELSE ToString(t[3])) \o "]" \o m[2]>>
     [] t[1] \in {"fnp", "fn"} ->
          LET m == Marked(ev, t[2])
-             an == [i \in DOMAIN t[3] |-> LET a == Marked(ev, t[3][i]) IN a[1] \o a[2]]
+             an == Tup([i \in DOMAIN t[3] |-> LET a == Marked(ev, t[3][i]) IN a[1] \o a[2]])
              al == IF t[4] THEN Append(an, "...") ELSE IF Len(an) = 0 THEN <<"void">> ELSE an
          IN <<m[1] \o (IF t[1] = "fnp" THEN "(*" ELSE "("), ")(" \o ArgsText(al) \o ")" \o m[2]>>
 PyStr(ev, t) == LET m == Marked(ev, t) IN "<" \o m[1] \o m[2] \o ">"        \* str(tp) = repr
@@ -169,9 +175,9 @@ SUEntry(ev, idx, t) ==
   [ name |-> SUTag(t), tidx |-> idx[t], flags |-> SUFlags(ev, t),
     fields |-> IF SUComplete(ev, t) /\ t \notin ev.inc
                THEN LET fs == ev.su[t].fields
-                    IN [i \in DOMAIN fs |-> [ name |-> fs[i][1],
+                    IN Tup([i \in DOMAIN fs |-> [ name |-> fs[i][1],
                                               op |-> IF fs[i][3] = Unk THEN OP_NOOP ELSE OP_BITFIELD,
-                                              arg |-> idx[fs[i][2]], bits |-> fs[i][3] ]]
+                                              arg |-> idx[fs[i][2]], bits |-> fs[i][3] ]])
                ELSE <<>> ]
 
 SortByName(seq) == SortSeq(seq, LAMBDA a, b : StrLt(a.name, b.name))
@@ -184,7 +190,7 @@ FileTypedefs(ev) == {n \in DOMAIN ev.td : ev.td[n] = File}
 
 Encode(ev) ==
   LET TD == TypesDict(ev)
-      nm == [t \in TD |-> PyStr(ev, t)]
+      nm == Fn([t \in TD |-> PyStr(ev, t)])
       decls == SortSeq(SetToSeq(TD), LAMBDA a, b : StrLt(nm[a], nm[b]))
       L == AddOthers(AddFns([slots |-> <<>>, idx |-> EmptyFn], decls, 1), decls, 1)
       idx == L.idx
@@ -193,9 +199,9 @@ Encode(ev) ==
       suSeq == SortSeq(SetToSeq(aggs), LAMBDA a, b : IF variant = "susort" THEN StrLt(nm[a], nm[b])
                                                      ELSE StrLt(SUTag(a), SUTag(b)))
       enSeq == SortSeq(SetToSeq(DOMAIN ev.en), StrLt)
-      suPos == [t \in aggs |-> PosIn(suSeq, t)]
-      enPos == [g \in DOMAIN ev.en |-> PosIn(enSeq, g)]
-      words == [i \in DOMAIN L.slots |-> SlotWord(idx, suPos, enPos, L.slots[i])]
+      suPos == Fn([t \in aggs |-> PosIn(suSeq, t)])
+      enPos == Fn([g \in DOMAIN ev.en |-> PosIn(enSeq, g)])
+      words == Tup([i \in DOMAIN L.slots |-> SlotWord(idx, suPos, enPos, L.slots[i])])
       fileUsed == File \in TD
       globals ==
         SetToSeq({[name |-> f, w |-> Word(OP_DLOPEN_FUNC, idx[Raw(ev.fn[f])]), val |-> "0"] : f \in DOMAIN ev.fn})
@@ -221,7 +227,7 @@ Encode(ev) ==
         \* _add_missing_struct_unions: self._typedef_ctx(tp, 'FILE')
         \o (IF fileUsed /\ FileTypedefs(ev) = {} /\ variant # "nofiletd"
             THEN << [name |-> "FILE", tidx |-> idx[File]] >> ELSE <<>>)
-  IN [ types |-> [i \in DOMAIN words |-> Enc4(words[i])],
+  IN [ types |-> Tup([i \in DOMAIN words |-> Enc4(words[i])]),
        slots |-> L.slots,
        globals |-> SortByName(globals),
        structs |-> SortByName(structs),
@@ -232,7 +238,7 @@ Encode(ev) ==
 
 (* ------------------------------------------------------------------ Decode *)
 \* ffiobj_init: ntypes[i] = cdl_opcode(types + 4*i)
-Words(M) == [i \in DOMAIN M.types |-> Dec4(M.types[i])]
+Words(M) == Tup([i \in DOMAIN M.types |-> Dec4(M.types[i])])
 
 \* parse_c_type.c:search_sorted over a table sorted by name; returns 0-based index or -1
 RECURSIVE Bsearch(_, _, _, _)
@@ -280,12 +286,13 @@ Rz(M, W, i) ==
                            ELSE Arr(Rz(M, W, arg), W[i + 2])     \* length = (Py_ssize_t)opcodes[index + 1]
        [] op = OP_OPEN_ARRAY -> Arr(Rz(M, W, arg), Open)
        [] op = OP_STRUCT_UNION -> RzSU(M, arg)
-       [] op = OP_ENUM -> <<"enum", RealizeName("enum ", M.enums[arg + 1].name)>>
+       [] op = OP_ENUM -> IF D4(M.enums[arg + 1].tidx) < 0 \/ D4(M.enums[arg + 1].tidx) >= Len(W) THEN <<"bad-index", arg>>
+                          ELSE <<"enum", RealizeName("enum ", M.enums[arg + 1].name)>>
        [] op = OP_FUNCTION ->
             LET ends == {n \in 0..(Len(W) - i - 2) : GetOp(W[i + 2 + n]) = OP_FUNCTION_END}
                 nargs == CHOOSE n \in ends : \A m \in ends : n <= m
             IN IF ends = {} THEN <<"bad-function">>
-               ELSE <<"fn", Rz(M, W, arg), [j \in 1..nargs |-> Rz(M, W, i + j)], GetArg(W[i + 2 + nargs]) % 2 = 1>>
+               ELSE <<"fn", Rz(M, W, arg), Tup([j \in 1..nargs |-> Rz(M, W, i + j)]), GetArg(W[i + 2 + nargs]) % 2 = 1>>
        [] op = OP_NOOP -> Rz(M, W, arg)
        [] OTHER -> <<"bad-op", op>>
 
@@ -306,12 +313,12 @@ LazyFields(M, W, ctname) ==
   IN IF n < 0 THEN <<"lost a struct/union!">>
      ELSE LET fs == M.structs[n + 1].fields
           IN [i \in DOMAIN fs |-> << fs[i].name, Rz(M, W, fs[i].arg),
-                                     IF fs[i].op = OP_BITFIELD THEN fs[i].bits ELSE Unk >>]
+                                     IF fs[i].op = OP_BITFIELD THEN D4(fs[i].bits) ELSE Unk >>]
 
 (* ------------------------------------------------------------------ projection of the decoded module *)
 \* ffi.typeof("n"): parse_c_type: search_in_typenames -> OP_TYPENAME -> ctx.types[type_index]
 OolTd(M, W, n) == LET k == Search(M.typenames, n)
-                  IN IF k < 0 THEN <<"undefined type name">> ELSE Rz(M, W, M.typenames[k + 1].tidx)
+                  IN IF k < 0 THEN <<"undefined type name">> ELSE Rz(M, W, D4(M.typenames[k + 1].tidx))
 
 \* ffi.typeof("struct s1"): search_in_struct_unions + kind check
 OolSU(M, W, key) ==
@@ -322,6 +329,8 @@ OolSU(M, W, key) ==
               opaque == (s.flags \div F_OPAQUE) % 2 = 1
               ct == RzSU(M, n)
           IN IF isu # (key[1] = "union") THEN [err |-> "wrong kind of tag"]
+             \* _realize_c_struct_or_union: builder->ctx.types[s->type_index] is the primary slot
+             ELSE IF D4(s.tidx) < 0 \/ D4(s.tidx) >= Len(W) THEN [err |-> "type_index outside the type table"]
              ELSE [ name |-> ct[2], kind |-> ct[1], complete |-> ~opaque,
                     fields |-> IF opaque THEN <<>> ELSE LazyFields(M, W, ct[2]) ]
 
@@ -329,7 +338,8 @@ OolEnum(M, W, tag) ==
   LET n == Search(M.enums, tag)
   IN IF n < 0 THEN [err |-> "undefined enum name"]
      ELSE LET e == M.enums[n + 1]
-          IN [ name |-> RealizeName("enum ", e.name), names |-> e.enumerators,
+          IN IF D4(e.tidx) < 0 \/ D4(e.tidx) >= Len(W) THEN [err |-> "type_index outside the type table"] ELSE
+             [ name |-> RealizeName("enum ", e.name), names |-> e.enumerators,
                vals |-> [i \in DOMAIN e.enumerators |->
                             LET gi == Search(M.globals, e.enumerators[i])
                             IN IF gi < 0 THEN "lost" ELSE GlobalInt(M, gi)],
